@@ -15,6 +15,16 @@ import ast
 from common import *
 import py2gal
 from py2gal import Unsupported
+import failclosed
+
+# the functions read below (and is_valid_ipv4, which the guards of get_ipv6_addr_by_EUI64 call with its default): one undecorated
+# definition each, bound to its name at run time; `netaddr` / `parse` the real modules (tools/gen/failclosed.py)
+FAILCLOSED = {'generate': [{'src': 'oslo_utils/netutils.py', 'mod': 'oslo_utils.netutils',
+    'classes': {'_ModifiedSplitResult': {'bases': ['parse.SplitResult']}},
+    'functions': {'get_ipv6_addr_by_EUI64': {'defaults': {}}, 'get_mac_addr_by_ipv6': {'defaults': {'dialect': 'netaddr.mac_unix_expanded'}},
+                  'parse_host_port': {'defaults': {'default_port': 'None'}}, 'urlsplit': {'defaults': {'scheme': "''", 'allow_fragments': 'True'}},
+                  'is_valid_ipv4': {'defaults': {'strict': 'True'}}},
+    'imports': {'netaddr': 'netaddr', 'parse': 'urllib.parse'}}]}
 
 COQ_TY = dict(py2gal.COQ_TY, pyval='pyval', hostport='(option bytes * option Z)',
               split5='(bytes * bytes * bytes * bytes * bytes)')
@@ -312,6 +322,7 @@ def gen_eui64(tree):
 
 
 def generate():
+    failclosed.check_all(FAILCLOSED['generate'])
     tree = repo_ast('oslo_utils/netutils.py')
     try:
         parts = [gen_eui64(tree), gen_mac_of_ipv6(tree), gen_parse_host_port(tree), gen_urlsplit_post(tree)]
